@@ -93,7 +93,7 @@ def seeds(rng, kind):
     elif kind == 'ncch':
         for t in range(3):
             spec = nc.gen_spec(rng, small=True)
-            spec['mode'] = rng.choice(['nocrypto', 'normal', 'fixed'])
+            spec['mode'] = rng.choice(['nocrypto', 'normal', 'fixed']) if t else 'normal'     # (the first one encrypted: its fully-decrypted view is assembled, not a window)
             spec['uses_seed'] = False
             spec['b9seed'] = 777
             image, info, kwargs = nc.build(spec)
